@@ -171,8 +171,20 @@ def is_sym(x):
 # ----------------------------------------------------------------------------------------------
 # denotation of formulas
 
+class Hole(boolalg.BooleanFunction):
+    """A real sympy Boolean node of a kind NO code under verification knows: Hole(Symbol('k')) stands for an arbitrary sub-tree whose top node
+    is none of the kinds the code inspects (the inspected kinds are enumerated as explicit patterns).  Its meaning is the free variable hole_k."""
+    nargs = 1
+
+    @classmethod
+    def eval(cls, *a):
+        return None
+
+
 def sympy_to_z3(e):
     """Standard meaning of a real sympy Boolean tree, node by node."""
+    if isinstance(e, Hole):
+        return z3.Bool("hole_" + e.args[0].name)
     if e is True or e is sympy.true:
         return z3.BoolVal(True)
     if e is False or e is sympy.false:
@@ -751,6 +763,14 @@ class Engine:
         # default values are evaluated at definition time; the real default objects are re-attached below
         fd.args.defaults = [ast.Constant(None) for _ in fd.args.defaults]
         fd.args.kw_defaults = [None if d is None else ast.Constant(None) for d in fd.args.kw_defaults]
+        only_class_cell = bool(f.__closure__) and f.__code__.co_freevars == ("__class__",)
+        if only_class_cell:
+            # zero-argument super(): the compiler's __class__ cell would be the shell class below; spell the real class out instead
+            for n in ast.walk(fd):
+                if isinstance(n, ast.Call) and isinstance(n.func, ast.Name) and n.func.id == "super" and not n.args and not n.keywords:
+                    n.args = [ast.Name(id="__vc_cls__", ctx=ast.Load()), ast.Name(id=first, ctx=ast.Load())]
+                elif isinstance(n, ast.Name) and n.id == "__class__":
+                    n.id = "__vc_cls__"
         fd = Instrument(first).visit(fd)
         qual = f.__qualname__.split(".")
         owner = None
@@ -778,7 +798,7 @@ class Engine:
             nf.__defaults__ = f.__defaults__      # the very same default objects (frame clauses see them)
         if f.__kwdefaults__:
             nf.__kwdefaults__ = f.__kwdefaults__
-        if f.__closure__:
+        if f.__closure__ and not (only_class_cell and owner and f.__closure__[0].cell_contents is g.get("__vc_cls__")):
             raise Unsupported(f"{f.__qualname__}: closure captured outside instrumented code")
         self.cache[f] = nf
         from .common import source_info
